@@ -314,6 +314,7 @@ func (l c11) Exec(env *core.Env) *core.Result {
 		}
 		rs := &recordingSigner{inner: innerSigner}
 		var prev *notation.SignOptions
+		prevOK, lastOK := false, false // did the previous call (whose options a repeat reuses) succeed
 		for ci, op := range p.Ops {
 			rt.Yield("op")
 			if op.Kind == "reopen" {
@@ -410,6 +411,9 @@ func (l c11) Exec(env *core.Env) *core.Result {
 			if ci > 0 || len(meta) > 0 || faulted {
 				res.Nontrivial = true
 			}
+			sameAsPrev := op.Int(3) == 1 && prev != nil
+			prevOK = lastOK
+			lastOK = err == nil
 			po := opts
 			prev = &po
 			// the caller's maps are untouched
@@ -437,11 +441,13 @@ func (l c11) Exec(env *core.Env) *core.Result {
 			}
 			if err != nil {
 				if !mustRefuse && !faulted {
-					class := "C11/signing-refused-without-cause"
-					if ci > 0 {
-						class = "C11/repeated-signing-refused"
+					if sameAsPrev && prevOK {
+						// "signing the same reference again with the same options succeeds again"
+						res.Violate("C11/repeated-signing-refused", key, "the very same call succeeded before; now SignOCI failed with nothing injected: %v", err)
+					} else {
+						// what else an implementation refuses (stricter metadata rules, say) is its own business; counted
+						res.Probe("signing_refused_without_a_cause_the_statement_names")
 					}
-					res.Violate(class, key, "SignOCI failed although the reference resolves, the metadata is legal and nothing was injected: %v", err)
 				}
 				if newPushes != 0 {
 					res.Violate("C11/signature-attached-by-failed-call", key, "SignOCI returned %v but %d signature manifest(s) were attached", err, newPushes)
